@@ -20,6 +20,7 @@ type V struct {
 	S string `json:"s,omitempty"` // atom text: decimal integer, "p/q", float in Go syntax, string, symbol name, rune
 	E []V    `json:"e,omitempty"` // elements; dotted: last element is the tail; hash: k v k v ...; arr: row major
 	D []int  `json:"d,omitempty"` // arr: dimensions
+	A bool   `json:"a,omitempty"` // vec, arr: adjustable
 }
 
 func bigOf(s string) *big.Int {
@@ -81,10 +82,10 @@ func build(v V) slip.Object {
 		for i, e := range v.E {
 			l[i] = build(e)
 		}
-		return slip.NewVector(len(l), slip.TrueSymbol, nil, l, false)
+		return slip.NewVector(len(l), slip.TrueSymbol, nil, l, v.A)
 	case "arr":
 		pos := 0
-		return slip.NewArray(v.D, slip.TrueSymbol, nil, nest(v, v.D, &pos), false)
+		return slip.NewArray(v.D, slip.TrueSymbol, nil, nest(v, v.D, &pos), v.A)
 	case "hash":
 		ht := slip.HashTable{}
 		for i := 0; i+1 < len(v.E); i += 2 {
@@ -308,7 +309,7 @@ func genValue(t *rapid.T, depth int) V {
 		}
 		return V{K: "dotted", E: append(es, tail)}
 	case 5, 6:
-		return V{K: "vec", E: elems(0, 6)}
+		return V{K: "vec", E: elems(0, 6), A: rapid.Bool().Draw(t, "adjustable")}
 	case 7:
 		rank := rapid.IntRange(2, 3).Draw(t, "rank")
 		dims := make([]int, rank)
@@ -321,7 +322,7 @@ func genValue(t *rapid.T, depth int) V {
 		for i := range es {
 			es[i] = genValue(t, depth-2)
 		}
-		return V{K: "arr", E: es, D: dims}
+		return V{K: "arr", E: es, D: dims, A: rapid.Bool().Draw(t, "adjustable")}
 	}
 	n := rapid.IntRange(0, 4).Draw(t, "hn")
 	var es []V
